@@ -22,9 +22,10 @@ theorem scanNW_cons (f : Nat) (t : Tok) (ts : List Tok) (h1 : t ≠ .ws) (h2 : t
 theorem scanNW_nil (f : Nat) : scanNW tokSrc (f + 1) ([] : List Tok) = some (.eof, [], []) := by
   simp [scanNW, tokScan]
 
-/-- what may follow an expression: the end, `)` or `,`. -/
+/-- what may follow an expression: the end, `)`, `,`, or a keyword that is no operator (AS, FROM, …). -/
 def EndFollow (X : List Tok) : Prop :=
-  X = [] ∨ (∃ ts, X = .sym .rparen :: ts) ∨ (∃ ts, X = .sym .comma :: ts)
+  X = [] ∨ (∃ ts, X = .sym .rparen :: ts) ∨ (∃ ts, X = .sym .comma :: ts) ∨
+  (∃ k ts, X = .kw k :: ts ∧ tokToOp (.kw k) = none)
 
 /-- what may follow an operand without being taken for a part of it: not `(`, `::`, `.`. -/
 def SafeFollow : List Tok → Prop
@@ -32,7 +33,7 @@ def SafeFollow : List Tok → Prop
   | t :: _ => t ≠ .sym .lparen ∧ t ≠ .sym .dcolon ∧ t ≠ .sym .dot
 
 theorem SafeFollow_of_End (X : List Tok) (h : EndFollow X) : SafeFollow X := by
-  rcases h with rfl | ⟨ts, rfl⟩ | ⟨ts, rfl⟩ <;> simp [SafeFollow]
+  rcases h with rfl | ⟨ts, rfl⟩ | ⟨ts, rfl⟩ | ⟨k, ts, rfl, _⟩ <;> simp [SafeFollow]
 
 theorem opToTok_ne (op : Op) :
     opToTok op ≠ .ws ∧ opToTok op ≠ .comment ∧ opToTok op ≠ .sym .lparen ∧ opToTok op ≠ .sym .dcolon ∧
@@ -49,10 +50,11 @@ theorem SafeFollow_op (op : Op) (ts : List Tok) : SafeFollow (opToTok op :: ts) 
 /-- the loop stops in front of anything that ends an expression. -/
 theorem peLoop_end (f : Nat) (root : Expr) (X : List Tok) (h : EndFollow X) :
     peLoop tokSrc (f + 2) root X = some (root, X) := by
-  rcases h with rfl | ⟨ts, rfl⟩ | ⟨ts, rfl⟩
+  rcases h with rfl | ⟨ts, rfl⟩ | ⟨ts, rfl⟩ | ⟨k, ts, rfl, hk⟩
   · simp [peLoop, scanNW, tokScan, tokToOp]
   · simp [peLoop, scanNW, tokScan, tokToOp]
   · simp [peLoop, scanNW, tokScan, tokToOp]
+  · simp [peLoop, scanNW, tokScan, hk]
 
 /-! ### tokens of a chain after its first operand -/
 
